@@ -222,18 +222,28 @@ theorem C13_bucket_location_roundtrip (X : Ext) (tag : Bytes) (ns : Option Bytes
     (∀ b : Bytes, b ≠ [] → utf8Valid b = true →
       decodeDoc X (.location tag) s (encodeDoc (.location tag ns) s (.struct [.one (.str b)])) = .ok (.struct [.one (.str b)])) ∧
     decodeDoc X (.location tag) s (encodeDoc (.location tag ns) s (.struct [.absent])) = .ok (.struct [.absent]) := by
+  have hend : ∀ (k : Nat) (acc : FVal), forEach (locationItem tag) (k + 1) [] acc = .ok (acc, []) := by
+    intro k acc; simp [forEach, skipText]
   constructor
   · intro b hb hv
     have he : escapeText b ≠ [] := fun h => hb (escapeText_eq_nil.mp h)
-    have hne : ∀ x : Bytes, x ≠ [] → textEv x = [.text x] := fun x hx => by simp [textEv, hx]
-    simp only [decodeDoc, encodeDoc, hne _ he, List.cons_append, List.nil_append, List.length_cons, List.length_nil]
-    simp only [forEach, skipText, if_true, FVal.isAbsent, textOf, decodeStr_escapeText hv, expectEnd,
-      expectEof]
-    cases b with
-    | nil => exact absurd rfl hb
-    | cons c cs => simp
-  · simp only [decodeDoc, encodeDoc, List.length_cons, List.length_nil]
-    simp [forEach, skipText, FVal.isAbsent, textOf, decodeStr, utf8Valid_nil, unescape, expectEnd, expectEof]
+    have henc : encodeDoc (.location tag ns) s (.struct [.one (.str b)])
+        = [.start tag (nsAttr ns), .text (escapeText b), .stop tag] := by
+      simp [encodeDoc, textEv, he]
+    have hf : locationItem tag tag [.text (escapeText b), .stop tag] .absent = .ok (.one (.str b), [.stop tag]) := by
+      simp [locationItem, FVal.isAbsent, textOf_text_stop, decodeStr_escapeText hv, hb]
+    rw [henc]
+    simp only [decodeDoc, List.length_cons, List.length_nil]
+    rw [forEach_step (locationItem tag) _ tag (nsAttr ns) _ [] .absent (.one (.str b)) hf, hend]
+    simp [expectEof, skipText]
+  · have henc : encodeDoc (.location tag ns) s (.struct [.absent]) = [.start tag (nsAttr ns), .stop tag] := by
+      simp [encodeDoc]
+    have hf : locationItem tag tag [.stop tag] .absent = .ok (.absent, [.stop tag]) := by
+      simp [locationItem, FVal.isAbsent, textOf_stop, decodeStr, utf8Valid_nil, unescape]
+    rw [henc]
+    simp only [decodeDoc, List.length_cons, List.length_nil]
+    rw [forEach_step (locationItem tag) _ tag (nsAttr ns) _ [] .absent .absent hf, hend]
+    simp [expectEof, skipText]
 
 /-! ## bytes: writer and tokeniser -/
 
